@@ -151,12 +151,20 @@ def spd(rng, n, cond=10.0, cross=True, scale=1.0):
     return M
 
 
-def info(rng, n, maxcond=1e3, scale_exp=0.0, cross=None, psd=False):
+def info(rng, n, maxcond=1e3, scale_exp=0.0, cross=None, psd=False, extreme_scale=False):
     """Information matrix; returns (ndarray, labels)."""
     labels = set()
     cross = (rng.random() < 0.6) if cross is None else cross
     cond = 10.0 ** rng.uniform(0, math.log10(maxcond))
     sc = 10.0 ** rng.uniform(-scale_exp, scale_exp) if scale_exp else 1.0
+    if extreme_scale:
+        u = rng.random()
+        if u < 0.15:
+            sc = 10.0 ** rng.uniform(-14, -7)
+            labels.add("info:tiny_scale")
+        elif u < 0.25:
+            sc = 10.0 ** rng.uniform(6, 12)
+            labels.add("info:huge_scale")
     M = spd(rng, n, cond, cross, sc)
     if psd and n > 1:
         v = rng.normal(size=n)
@@ -229,7 +237,7 @@ def normalize_pose(k, p):
 # consistent trajectory graphs (C05, C07, C08, C12, C16 ...)
 # --------------------------------------------------------------------------- #
 def trajectory_graph(rng, k, n, n_loops=0, n_lm=0, meas_t=0.0, meas_r=0.0, init_t=0.0, init_r=0.0,
-                     cond=10.0, cross=True, step=1.0, scale=5.0, lm_offsets=True, start=None):
+                     cond=10.0, cross=True, step=1.0, scale=5.0, lm_offsets=True, start=None, uturn=0.0):
     """Ground-truth trajectory of n poses of kind k + odometry / loop / landmark measurements.
     Returns a spec (vertices hold the perturbed initial guess) with extra keys 'truth'."""
     kp = R.POINT_OF[k]
@@ -240,8 +248,17 @@ def trajectory_graph(rng, k, n, n_loops=0, n_lm=0, meas_t=0.0, meas_r=0.0, init_
             sv = [float(x) for x in rng.normal(size=cd) * step]
         elif k == "se2":
             sv = [step + rng.normal() * 0.1, rng.normal() * 0.1, float(rng.uniform(-0.6, 0.6))]
+            if uturn and rng.random() < uturn:
+                sv[2] = float(rng.choice([-1.0, 1.0]) * (PI - abs(rng.normal()) * 0.02))
         else:
             sv = [step + rng.normal() * 0.1, rng.normal() * 0.1, rng.normal() * 0.1] + small_quat(rng, 0.35)
+            if uturn and rng.random() < uturn:
+                # a U-turn: rotation by pi +- a little about a random axis (relative quaternion with w ~ 0 of either sign)
+                ax = rng.normal(size=3)
+                ax /= np.linalg.norm(ax)
+                a = PI + rng.normal() * 0.02
+                q = np.append(ax * math.sin(a / 2), math.cos(a / 2))
+                sv = sv[:3] + [float(x) for x in q / np.linalg.norm(q)]
         truth.append(normalize_pose(k, R.vals(R.oplus(k, truth[-1], sv))))
     pairs = [(i, i + 1) for i in range(n - 1)]
     for _ in range(n_loops):
@@ -323,7 +340,7 @@ def fingerprint(obj):
 # --------------------------------------------------------------------------- #
 def cluster_graph(rng, kinds=None, size=(2, 6), noise_t=0.05, noise_r=0.03, init_t=0.2, init_r=0.1, cond=100.0,
                   custom=True, landmarks=True, multi=True, reverse=True, shuffle=True, weird_ids=True,
-                  extra_fixed=True, numeric_custom=None, scale=4.0, cross=None, fix_mode=None):
+                  extra_fixed=True, numeric_custom=None, scale=4.0, cross=None, fix_mode=None, alias=False):
     """Returns (spec, labels).  Every cluster (= connected component before landmark links) holds one fixed vertex,
     unless fix_mode == 'first' (then only the first listed vertex is fixed and there is a single pose cluster)."""
     labels = set()
@@ -480,6 +497,17 @@ def cluster_graph(rng, kinds=None, size=(2, 6), noise_t=0.05, noise_r=0.03, init
                 if rng.random() < 0.2:
                     v["fixed"] = True
             labels.add("several_fixed_per_cluster")
+    share = []
+    if alias:
+        # some vertices of one cluster start from the same initial pose and share its storage (object or numpy array)
+        for (k, ids) in clusters:
+            if len(ids) >= 2 and rng.random() < 0.7:
+                grp = [ids[int(x)] for x in rng.choice(len(ids), int(rng.integers(2, min(3, len(ids)) + 1)), replace=False)]
+                for vid in grp[1:]:
+                    vmap[vid]["pose"] = list(vmap[grp[0]]["pose"])
+                share.append(grp)
+        if share:
+            labels.add("shared_pose_storage")
     if shuffle:
         perm = rng.permutation(len(vertices))
         vertices = [vertices[int(i)] for i in perm]
@@ -492,6 +520,9 @@ def cluster_graph(rng, kinds=None, size=(2, 6), noise_t=0.05, noise_r=0.03, init
         j = next(i for i, v in enumerate(vertices) if v["id"] in ids0)
         vertices[0], vertices[j] = vertices[j], vertices[0]
     spec = {"vertices": vertices, "edges": edges, "truth_by_id": {str(k): v for k, v in truth.items()}}
+    if share:
+        spec["share"] = share
+        spec["share_mode"] = str(rng.choice(["object", "array"]))
     # label: edges naming their vertices high-index-first (w.r.t. list order)
     pos = {v["id"]: i for i, v in enumerate(vertices)}
     nrev = sum(1 for e in edges if len(e["ids"]) >= 2 and pos[e["ids"][0]] > pos[e["ids"][1]])
